@@ -72,3 +72,11 @@ Example C13_witness :
   map (fun tp => map (fun ch => (c_msgcount ch, accounted ch, length (c_fin ch), length (c_emptied ch))) (t_chans tp)) (s_topics s)
   = [[(4, 4%nat, 1%nat, 3%nat)]].
 Proof. vm_compute. reflexivity. Qed.
+
+(* The model is tied to the CURRENT source: the order-of-effects facts about nsqd's core
+   functions that the model assumes (proofs/CoreSrcDefs.v) hold of the statement skeletons
+   regenerated from /repo on this run (gen/CoreShape.v). *)
+From NSQV Require proofs.CoreSrcDefs proofs.CoreSrcC13.
+Theorem C13_source_shape : CoreSrcDefs.src_facts_C13.
+Proof. exact CoreSrcC13.src_C13. Qed.
+Print Assumptions C13_source_shape.
